@@ -139,6 +139,39 @@ Theorem C05_dematerialize_materialize : forall A (xs : list A) t,
 Proof. exact @dematerialize_materialize. Qed.
 Print Assumptions C05_dematerialize_materialize.
 
+Theorem C05_distinct_until_changed : forall A K (key : A -> K) (eqk : K -> K -> bool) (xs : list A) t,
+  exec (op_distinct_until_changed (pure key) (pure_cmp eqk)) (events xs t)
+  = nexts (duc_list key eqk None (indexed 1 xs)) ++ tterm (S (length xs)) t.
+Proof. exact @distinct_until_changed_spec. Qed.
+Print Assumptions C05_distinct_until_changed.
+
+Theorem C05_distinct : forall A K (key : A -> K) (eqk : K -> K -> bool) (xs : list A) t,
+  exec (op_distinct (pure key) (pure_cmp eqk)) (events xs t)
+  = nexts (distinct_list key eqk [] (indexed 1 xs)) ++ tterm (S (length xs)) t.
+Proof. exact @distinct_spec. Qed.
+Print Assumptions C05_distinct.
+
+Theorem C05_find : forall A (p : A -> nat -> bool) yi (xs : list A) t,
+  exec (op_find (pure2 p) yi) (events xs t)
+  = match first_match p 0 (indexed 1 xs) with
+    | Some (j, idx, x) =>
+        [(j, Next (if yi then inr (Z.of_nat idx) else inl (Some x))); (j, Done)]
+    | None => match t with
+              | TDone => [(S (length xs), Next (if yi then inr (-1) else inl None)); (S (length xs), Done)]
+              | _ => tterm (S (length xs)) t
+              end
+    end.
+Proof. exact @find_spec. Qed.
+Print Assumptions C05_find.
+
+(* skip_last(c): the first c inputs only fill the queue; input j + c releases element j *)
+Theorem C05_skip_last : forall A (c : nat) (xs : list A) t,
+  exec (op_skip_last (Z.of_nat c)) (events xs t)
+  = nexts (combine (seq (1 + c) (length xs - c)) (firstn (length xs - c) xs))
+    ++ tterm (S (length xs)) t.
+Proof. exact @skip_last_spec_m. Qed.
+Print Assumptions C05_skip_last.
+
 (* every machine of the catalogue, on ARBITRARY input (emissions after the
    terminal, double terminals): the output obeys Next* (Err|Done)? *)
 Theorem C05_outputs_wellformed : forall A B (m : mealy A B) (ins : list (ev A)),
